@@ -237,6 +237,8 @@ func vC12Disc(r *vRand, c *vC12Cfg, rd []uint64, readsDest bool, fill int, bad s
 		add(4+r.Intn(2), append(vC12Subset(r, rd), vPick(r, unread)))
 	case "disc-name":
 		add(6, []uint64{c.Dest})
+	case "disc-empty":
+		add(r.Range(0, 5), nil) // a contract name with an empty address map
 	}
 	items := make([]string, len(ents))
 	for i, e := range ents {
@@ -257,7 +259,7 @@ func vC12Plugin(c *vC12Cfg, me int, rmnOn bool) *Plugin {
 
 var vC12CommitClasses = []string{
 	"none", "none", "none", "roots", "onramp", "offramp", "rmncfg", "feecomp", "native", "feed", "fq", "chainfeeupd",
-	"disc-dest", "disc-own", "disc-name", "malformed", "retry",
+	"disc-dest", "disc-own", "disc-name", "malformed", "retry", "disc-empty",
 }
 
 // options of the observation generator (zero value + fill = -1: everything drawn at random)
@@ -460,6 +462,10 @@ func vC12GenCommitCase(t *testing.T, r *vRand, c *vC12Cfg, o int, tokens *vInter
 			id = "tokA"
 		}
 		p := cciptypes.NewBigIntFromInt64(int64(100 + k))
+		if r.Chance(1, 3) {
+			// validation accepts any non-nil feed price: zero, negative (feed answers are int256), huge
+			p = cciptypes.NewBigInt(vPick(r, []*big.Int{big.NewInt(0), big.NewInt(-3), new(big.Int).Lsh(big.NewInt(1), 200)}))
+		}
 		if mal() {
 			p = cciptypes.BigInt{}
 		}
@@ -470,7 +476,8 @@ func vC12GenCommitCase(t *testing.T, r *vRand, c *vC12Cfg, o int, tokens *vInter
 		to.FeeQuoterTokenUpdates = map[cciptypes.UnknownEncodedAddress]plugintypes.TimestampedBig{}
 		for k := 0; k < r.Range(1, 2); k++ {
 			id := "tok" + string(rune('A'+k))
-			to.FeeQuoterTokenUpdates[cciptypes.UnknownEncodedAddress(id)] = plugintypes.TimestampedBig{Timestamp: now, Value: cciptypes.NewBigIntFromInt64(5)}
+			to.FeeQuoterTokenUpdates[cciptypes.UnknownEncodedAddress(id)] = plugintypes.TimestampedBig{Timestamp: now,
+				Value: cciptypes.NewBigInt(vPick(r, []*big.Int{big.NewInt(5), big.NewInt(5), big.NewInt(0), big.NewInt(-1), new(big.Int).Lsh(big.NewInt(1), 200)}))}
 			fqS = append(fqS, cN(tokens.Id(id)))
 		}
 	}
